@@ -12,7 +12,7 @@ RULE = ('cases = generated source G-SEL spec x all its feasible final instances 
         'set = supplementary closure), errors expected for the negative variants, SupResolveError accepted only where the '
         'model says the selected option is ambiguous; one evaluation = one (source architecture, resolve); non-trivial = '
         'a nested supplementary choice or a source choice inactive in >= 1 architecture; distinct by sha1(case)')
-BUDGET = {'quick': 80, 'thorough': 2000}
+BUDGET = {'quick': 300, 'thorough': 6000}
 
 
 @st.composite
